@@ -66,8 +66,11 @@ def q(tns, name):
     return ('t:' + name) if tns else name
 
 
-def build_schema(r):
-    """-> (schema, meta) ; meta describes where the constraints live and which fields they use"""
+def build_schema(r, cross=None):
+    """-> (schema, meta) ; meta describes where the constraints live and which fields they use.
+    cross=True: the keyref's attribute field `to` gets a type that is NOT related to the key field's type by derivation
+    (xs:string against decimal / integer / date / boolean / QName): equal lexical forms are then different values and
+    every reference is dangling (cvc-identity-constraint.4.3; values of unrelated primitive types are never equal)"""
     tns = xg.T if r.random() < 0.8 else None
     s = xg.Schema(tns, True)
     B = xg.B
@@ -76,6 +79,11 @@ def build_schema(r):
     tcode = r.choice(TYPES)
     if tid == 'boolean' and tcode == 'boolean':
         tcode = 'integer'
+    if cross is None:
+        cross = r.random() < 0.15
+    if cross and tid in ('string', 'token'):
+        tid = r.choice(['decimal', 'date', 'boolean', 'integer', 'QName'])
+    tref = 'string' if cross else tid
     lns = tns
     sub_t = s.add_type(xg.CType(tns, 'Sub', own_attrs=[xg.AUse(xg.ADecl(None, 'k', B[tid]))]))
     code = xg.EDecl(lns, 'code', B[tcode])
@@ -85,7 +93,7 @@ def build_schema(r):
                                  own_attrs=[xg.AUse(xg.ADecl(None, 'id', B[tid])), xg.AUse(xg.ADecl(None, 'id2', B[tcode]))]))
     rcode = xg.EDecl(lns, 'rcode', B[tcode])
     ref_t = s.add_type(xg.CType(tns, 'Ref', own_particle=('seq', [('e', rcode, 0, 1)], 1, 1),
-                                own_attrs=[xg.AUse(xg.ADecl(None, 'to', B[tid])), xg.AUse(xg.ADecl(None, 'to2', B[tcode]))]))
+                                own_attrs=[xg.AUse(xg.ADecl(None, 'to', B[tref])), xg.AUse(xg.ADecl(None, 'to2', B[tcode]))]))
     item = s.add_elem(xg.EDecl(tns, 'item', item_t, glob=True))
     ref = s.add_elem(xg.EDecl(tns, 'ref', ref_t, glob=True))
     grp_t = xg.CType(tns, 'Grp')
@@ -111,7 +119,11 @@ def build_schema(r):
     ref_sels_db = [R, './/' + R, '%s/%s' % (G, R), '%s|%s/%s' % (R, G, R), '*/' + R]
     item_sels_grp = [I, './/' + I, '%s/%s' % (G, I), './' + I]
     ref_sels_grp = [R, './/' + R]
-    meta = {'tid': tid, 'tcode': tcode, 'fields': fset[2], 'scope': scope, 'kind': kind, 'with_ref': with_ref, 'tns': tns}
+    if cross:
+        # the cross-typed field must be the one the keyref uses, and there must be a keyref
+        fset = r.choice([field_sets[0], field_sets[3], field_sets[4], field_sets[5]])
+        with_ref = True
+    meta = {'tid': tid, 'tcode': tcode, 'tref': tref, 'cross_typed_keyref': bool(cross), 'fields': fset[2], 'scope': scope, 'kind': kind, 'with_ref': with_ref, 'tns': tns}
     ics = []
     if fset[2] == 'path-attr' and r.random() < 0.5:
         # select the sub elements themselves: field '.'-relative attribute
@@ -327,7 +339,7 @@ def duplicate_fresh(r, s, meta, el, shift=20000):
 def gen(seed, si, tier):
     """-> (schema, meta, checker, [(family, scenario, n, El, violations, skips, base index)]) ; deterministic"""
     r = core.rng(seed, PID, 'schema', si)
-    s, meta = build_schema(r)
+    s, meta = build_schema(r, cross=True if si % 8 == 4 else None)
     chk = ic.Checker(s)
     out = []
     ninst = 26 if tier == 'quick' else 60
@@ -429,6 +441,8 @@ def shrink_and_name(ck, binary, nproc, tier, confirmed):
         feats = sorted(chk.feats)
         primary = [f for f in feats if f.startswith(('nested-scopes-', 'field-multiple-match:', 'keyref:no-key-table', 'propagation:'))]
         feats = primary or feats
+        if meta.get('cross_typed_keyref') and any(x[0] == 'keyref-not-found' for x in (v or [])):
+            feats = feats + ['cross-typed-keyref']
         if cls == 'V':
             key = 'C10:accepted-invalid:%s:%s' % (vkey(v), '+'.join(feats) or 'plain')
         elif cls == 'E':
@@ -505,7 +519,7 @@ def run(tier):
             meta = {}
             for w in works:
                 m = w['meta']
-                for k in ('tid', 'tcode', 'fields', 'scope', 'kind'):
+                for k in ('tid', 'tcode', 'fields', 'scope', 'kind', 'cross_typed_keyref'):
                     feat['%s=%s' % (k, m[k])] += 1
                 for knd, sel in m['selectors']:
                     feat['selector:' + re.sub(r'[a-z0-9]+:', '', sel)] += 1
